@@ -99,7 +99,11 @@ def enabled (s : Sys) (i : Nat) : Bool :=
     | .wantLock => s.lock.isNone
     | .enqueue => s.occ t.topic < s.cap
     | .done => false
-    | _ => true
+    -- the answer is written and flushed by the handler itself (`ackFlushedByHandler`, regenerated from the source); were
+    -- it only fed into the write buffer, the peer would have it when the topic's router next flushes that sink, i.e. not
+    -- before the socket has been taken out of the channel - which a full channel never lets happen
+    | .answer => ackFlushedByHandler || decide (s.occ t.topic < s.cap)
+    | .inLock => true
 
 def setPc (ts : List Task) (i : Nat) (pc : PC) : List Task :=
   ts.mapIdx fun j t => if j = i then { t with pc := pc } else t
